@@ -268,6 +268,10 @@ pub fn run(tier: &str, only: Option<&Value>) -> i32 {
                     rep.count("rejected_as_required", 1);
                     None
                 }
+                (pipe::Verdict::Err(_), _) if ps == 4 && c.addr >> 32 != 0 => {
+                    rep.count("rejected_address_beyond_pointer_width", 1);
+                    None
+                }
                 (pipe::Verdict::Ok(b), _) if !b.files.contains_key("m.rs") => Some(("no_output_file_for_the_module".to_string(), format!("files: {:?}", b.files.keys().collect::<Vec<_>>()))),
                 (pipe::Verdict::Ok(b), _) => {
                     let r = judge_text(c, &b.files["m.rs"]);
